@@ -563,9 +563,11 @@ class MPBFixedContext(SizedContext):
                         else:
                             result = Float(x=self.inf_value, ctx=self)
                     else:
-                        result = self.maxval(xr.s)
+                        result = self.smallest() if xr.s else self.largest()
                 case OverflowMode.SATURATE:
-                    result = self.maxval(s=xr.s)
+                    # `maxval(s=True)` raises when the format has no negative
+                    # values; the bound on that side is then zero
+                    result = self.smallest() if xr.s else self.largest()
                 case OverflowMode.WRAP:
                     ord_abs = self._fmt._mp_fmt.to_ordinal(Float(x=xr)) - self._fmt._neg_maxval_ord
                     total_ord = self._fmt._pos_maxval_ord - self._fmt._neg_maxval_ord + 1
